@@ -23,7 +23,8 @@ Definition wf_e (e : option entry) : Prop :=
   match e with Some (_, S0) => ssorted S0 | None => True end.
 
 Definition rs_ok (s : rrset) : Prop :=
-  s_class s = cIN /\ s_type s <> tSOA /\ 0 <= s_name s /\ s_data s <> [] /\ ssorted (s_data s).
+  s_class s = cIN /\ s_type s <> tSOA /\ 0 <= s_name s /\ s_data s <> [] /\ ssorted (s_data s) /\
+  is_singleton (s_type s) = false.
 
 Definition acc_ok (acc : list rrset) : Prop := Forall rs_ok acc /\ NoDup (map skey acc).
 
@@ -75,8 +76,8 @@ Lemma merge_rrset_add : forall e s r, wf_e e -> rs_ok s -> plain r ->
   merge e (s_ttl (rrset_add s r)) (s_data (rrset_add s r)) =
   add1 (Some (merge e (s_ttl s) (s_data s))) (r_ttl r) (r_data r).
 Proof.
-  intros e s r He (_ & _ & _ & Hne & Hs) (_ & _ & _ & Httl).
-  unfold rrset_add. cbn [s_ttl s_data]. rewrite (clamp_ok _ Httl).
+  intros e s r He (_ & _ & _ & Hne & Hs & Hsg) (_ & _ & _ & Httl & _).
+  unfold rrset_add. cbn [s_ttl s_data]. rewrite (clamp_ok _ Httl), (rds_add_plain _ _ _ Hsg).
   destruct (s_data s) as [|d0 ds] eqn:Ed; [congruence|]. rewrite <- Ed in *.
   destruct e as [[t0 S0]|]; cbn [merge add1].
   - fold (tmin (r_ttl r) (s_ttl s)). fold (tmin (r_ttl r) (tmin (s_ttl s) t0)).
@@ -91,7 +92,7 @@ Proof.
   intros k r acc. induction acc as [|s acc IH]; intros e Hp [Hok Hnd] He.
   - cbn [add_to]. unfold fm. cbn [fold_left]. rewrite skey_single.
     destruct (key_eqb (rkey r) k); [|reflexivity].
-    destruct Hp as (_ & _ & _ & Httl). unfold single. cbn [s_ttl s_data]. rewrite (clamp_ok _ Httl).
+    destruct Hp as (_ & _ & _ & Httl & _). unfold single. cbn [s_ttl s_data]. rewrite (clamp_ok _ Httl).
     destruct e as [[t0 S0]|]; reflexivity.
   - inversion Hok as [|? ? Hs Hok']; subst. inversion Hnd as [|? ? Hni Hnd']; subst.
     cbn [add_to]. pose proof Hp as (Hc & _). destruct Hs as (Hsc & Hrest).
@@ -106,7 +107,7 @@ Proof.
     + rewrite !fm_cons.
       destruct (key_eqb (skey s) k) eqn:Esk.
       * apply IH; [exact Hp|split; assumption|].
-        destruct Hrest as (_ & _ & _ & Hss). destruct e as [[t0 S0]|]; cbn [merge wf_e]; [apply union_sorted, He|exact Hss].
+        destruct Hrest as (_ & _ & _ & Hss & _). destruct e as [[t0 S0]|]; cbn [merge wf_e]; [apply union_sorted, He|exact Hss].
       * apply IH; [exact Hp|split; assumption|exact He].
 Qed.
 
@@ -125,12 +126,13 @@ Lemma add_to_ok : forall r acc, plain r -> acc_ok acc -> acc_ok (add_to r acc).
 Proof.
   intros r acc Hp. induction acc as [|s acc IH]; intros [Hok Hnd]; cbn [add_to].
   - split; [constructor; [|constructor]|constructor; [intros []|constructor]].
-    destruct Hp as (Hc & Ht & Hn & Httl). unfold rs_ok, single. cbn. repeat split; auto; [discriminate|apply ssorted_one].
+    destruct Hp as (Hc & Ht & Hn & Httl & Hsg). unfold rs_ok, single. cbn. repeat split; auto; [discriminate|apply ssorted_one].
   - inversion Hok as [|? ? Hs Hok']; subst. inversion Hnd as [|? ? Hni Hnd']; subst.
-    pose proof Hp as (Hc & Ht & Hn & Httl). pose proof Hs as (Hsc & Hst & Hsn & Hsne & Hss).
+    pose proof Hp as (Hc & Ht & Hn & Httl & Hsg). pose proof Hs as (Hsc & Hst & Hsn & Hsne & Hss & Hssg).
     rewrite (same_rrset_key r s Hc Hsc). destruct (key_eqb (rkey r) (skey s)) eqn:E.
     + split.
       * constructor; [|assumption]. unfold rs_ok, rrset_add. cbn [s_class s_type s_name s_data].
+        rewrite (rds_add_plain _ _ _ Hssg).
         repeat split; auto.
         -- intros Hnil. assert (In (r_data r) (ins (r_data r) (s_data s))) by (apply ins_In; auto).
            rewrite Hnil in H. destruct H.
@@ -210,11 +212,12 @@ Qed.
 Lemma t_add_rs : forall z s, rs_ok s ->
   t_add false z s = Ok (zput (skey s) (merge (look z (skey s)) (s_ttl s) (s_data s)) z).
 Proof.
-  intros z s (Hc & Ht & _ & Hne & _). unfold t_add.
+  intros z s (Hc & Ht & _ & Hne & _ & Hsg). unfold t_add.
   destruct (s_data s) as [|d ds] eqn:Ed; [congruence|]. rewrite <- Ed.
   rewrite Hc. cbn [Z.eqb cIN Pos.eqb negb].
   apply Z.eqb_neq in Ht. rewrite Ht. cbn [andb]. unfold merge, tmin.
-  destruct (look z (skey s)) as [[t0 S0]|]; reflexivity.
+  destruct (look z (skey s)) as [[t0 S0]|]; [|reflexivity].
+  rewrite (fold_rds_add_union _ _ _ Hsg). reflexivity.
 Qed.
 
 (* the state of a full transfer in progress (AXFR, or IXFR after the AXFR-style fallback) *)
@@ -243,7 +246,7 @@ Qed.
 
 Lemma single_ok : forall r, plain r -> rs_ok (single r).
 Proof.
-  intros r (Hc & Ht & Hn & Httl). unfold rs_ok, single. cbn. repeat split; auto; [discriminate|apply ssorted_one].
+  intros r (Hc & Ht & Hn & Httl & Hsg). unfold rs_ok, single. cbn. repeat split; auto; [discriminate|apply ssorted_one].
 Qed.
 
 (* how the records x of one message reach the zone: g = map single (IXFR, first AXFR message)
@@ -257,7 +260,7 @@ Lemma addrs_singles : forall x tz, Forall plain x -> addrs tz (map single x) = a
 Proof.
   induction x as [|r x IH]; intros tz Hf; cbn [map addrs adds]; [reflexivity|].
   inversion Hf as [|? ? Hp Hf']; subst. rewrite <- IH by assumption. f_equal.
-  rewrite skey_single. f_equal. destruct Hp as (_ & _ & _ & Httl).
+  rewrite skey_single. f_equal. destruct Hp as (_ & _ & _ & Httl & _).
   unfold single. cbn [s_ttl s_data]. rewrite (clamp_ok _ Httl).
   unfold merge, add1, tmin. destruct (look tz (rkey r)) as [[t0 S0]|]; reflexivity.
 Qed.
@@ -409,7 +412,7 @@ Lemma step_fallback : forall l p tz ser s0 r, plain r ->
   step l (ist false p tz ser s0 true false) (single r) =
   (ast false tIXFR p (adds [] [r]) ser s0, None).
 Proof.
-  intros l p tz ser s0 r Hp. pose proof Hp as (Hc & Ht & Hn & Httl).
+  intros l p tz ser s0 r Hp. pose proof Hp as (Hc & Ht & Hn & Httl & Hsg).
   unfold step, ist. cbn [done txn expecting].
   assert (E : (s_type (single r) =? tSOA) = false) by (apply Z.eqb_neq; exact Ht).
   rewrite E. cbn [andb].
